@@ -100,6 +100,8 @@ pub struct OpRec {
     pub after_rescue: bool,
     /// stream instance (per execution) used by a StreamNext op
     pub stream_id: u32,
+    /// the script reached its drop step: what follows is the future's destructor
+    pub dropping: bool,
 }
 
 #[derive(Default)]
@@ -396,6 +398,7 @@ fn begin(t: usize, i: usize, op: &Op, k: K, slot: usize, async_handle: bool, imp
             side_send: None,
             after_rescue: false,
             stream_id: 0,
+            dropping: false,
         });
         (e.ops.len() - 1) as u32
     });
@@ -569,6 +572,7 @@ fn drive<T>(
     is_stream: bool,
 ) -> (AsyncOut<T>, Option<(HWaker, u32)>) {
     if script[0] == Step::Drop {
+        upd(gi, |o| o.dropping = true);
         return (AsyncOut::Dropped(0), first_waker);
     }
     let (mut wk, mut wid) = match first_waker {
@@ -630,7 +634,10 @@ fn drive<T>(
                 }
             }
             Step::Yield(n) => rt::yield_points(*n),
-            Step::Drop => return (AsyncOut::Dropped(p.npolls), Some((wk, wid))),
+            Step::Drop => {
+                upd(gi, |o| o.dropping = true);
+                return (AsyncOut::Dropped(p.npolls), Some((wk, wid)));
+            }
             Step::PollAfterDone => {}
         }
     }
